@@ -66,6 +66,8 @@ BASES = [
         M("bytes", "ref", ["CSliceRef<u8>"], "usize"),
         M("pods", "mut", ["OpaqueCallback<Pod>", "CSliceMut<u32>"], ""),
         M("maybe", "ref", ["COption<u32>"], "COption<u64>"),
+        M("fallible", "mut", ["Option<u32>"], "Result<u32, u32>"),
+        M("coded", "ref", ["u8"], "Result<Pod, Pod>"),
     ]),
     T("Gamma", [
         M("res_a", "ref", ["u8"], "Result<u32, ()>"),
@@ -78,9 +80,11 @@ ARG_SWAPS = {"u32": ["u64", "i32", "u16"], "u64": ["u32", "i64", "usize"], "u8":
              "Option<u64>": ["Option<u32>", "u64"], "Pod": ["Pod2"], "f64": ["f32", "u64"], "bool": ["u8"], "usize": ["u32"],
              # the element type of the library's own generic FFI types is part of the entry's C signature
              "OpaqueCallback<u32>": ["OpaqueCallback<u64>", "OpaqueCallback<Pod>"], "CIterator<u32>": ["CIterator<u64>", "CIterator<i32>"], "CSliceRef<u8>": ["CSliceRef<u16>", "CSliceMut<u8>"],
-             "OpaqueCallback<Pod>": ["OpaqueCallback<Pod2>"], "CSliceMut<u32>": ["CSliceMut<u64>"], "COption<u32>": ["COption<u64>", "u32"]}
+             "OpaqueCallback<Pod>": ["OpaqueCallback<Pod2>"], "CSliceMut<u32>": ["CSliceMut<u64>"], "COption<u32>": ["COption<f32>", "COption<u64>", "u32"], "Option<u32>": ["Option<f32>", "Option<i32>", "Option<u64>"]}
 RET_SWAPS = {"u32": ["u64", "i32", ""], "u64": ["u32", "i64"], "usize": ["u32"], "Option<u64>": ["Option<u32>", "u64"], "Pod": ["Pod2"], "f64": ["f32"],
-             "Result<u64, ()>": ["Result<u32, ()>"], "Result<u32, ()>": ["Result<u64, ()>"], "Result<(), ()>": ["Result<u8, ()>"], "COption<u64>": ["COption<u32>"]}
+             "Result<u64, ()>": ["Result<u32, ()>"], "Result<u32, ()>": ["Result<u64, ()>"], "Result<(), ()>": ["Result<u8, ()>"], "COption<u64>": ["COption<f64>", "COption<u32>"],
+             # same size and alignment on either side of a Result that crosses as CResult
+             "Result<u32, u32>": ["Result<u32, f32>", "Result<f32, u32>", "Result<u32, i32>"], "Result<Pod, Pod>": ["Result<Pod, PodF>", "Result<PodF, Pod>"]}
 
 
 def variants(base, tier):
@@ -127,7 +131,7 @@ def variants(base, tier):
             add("method %s: one argument fewer" % m.name, t)
     # return types
     for i, m in enumerate(base.methods):
-        for alt in RET_SWAPS.get(m.ret, [])[: (1 if tier == "quick" else 9)]:
+        for alt in RET_SWAPS.get(m.ret, [])[: (1 if tier == "quick" and base.name != "Delta" else 9)]:
             t = copy.deepcopy(base)
             t.methods[i].ret = alt
             add("method %s: return %s -> %s" % (m.name, m.ret or "()", alt or "()"), t)
@@ -141,7 +145,7 @@ def variants(base, tier):
             add("method %s: receiver %s -> %s" % (m.name, m.recv, alt), t)
     # int_result toggles
     for i, m in enumerate(base.methods):
-        if m.ret.startswith("Result<"):
+        if m.ret.startswith("Result<") and base.name != "Delta":   # Delta's error types have no integer form
             t = copy.deepcopy(base)
             if base.int_result:
                 t.methods[i].attrs = [a for a in t.methods[i].attrs if a != "no_int_result"] + (["no_int_result"] if "no_int_result" not in m.attrs else [])
@@ -167,6 +171,9 @@ pub struct Pod { pub a: u8, pub b: u32 }
 #[repr(C)]
 #[derive(Clone, Copy, StableAbi)]
 pub struct Pod2 { pub a: u8, pub b: u64 }
+#[repr(C)]
+#[derive(Clone, Copy, StableAbi)]
+pub struct PodF { pub a: u8, pub b: f32 }
 
 fn vname(v: VerifyLayout) -> &'static str {
     match v { VerifyLayout::Valid => "Valid", VerifyLayout::Invalid => "Invalid", VerifyLayout::Unknown => "Unknown" }
